@@ -208,6 +208,19 @@ Theorem C14_EpochAcc : codec_ok enc_EpochAcc dec_EpochAcc (fun _ => True) EpochA
 Proof. exact EpochAcc_codec. Qed.
 Print Assumptions C14_EpochAcc.
 
+(* ---- the prover-side containers of package history (used by BuildHeaderWithProof / Accumulator.Finish):
+        BlockHeaderWithProof (the same generated code as types/history.BlockHeaderWithProof), SSZProof, MasterAccumulator.
+        All three decoders are strict as found: all four clauses. *)
+Theorem C14_HeaderWithProofH : codec_ok enc_HeaderWithProof dec_HeaderWithProof (fun _ => True) HeaderWithProof_lim.
+Proof. exact HeaderWithProofH_codec. Qed.
+Print Assumptions C14_HeaderWithProofH.
+Theorem C14_SSZProof : codec_ok enc_SSZProof dec_SSZProof (fun _ => True) SSZProof_lim.
+Proof. exact SSZProof_codec. Qed.
+Print Assumptions C14_SSZProof.
+Theorem C14_MasterAcc : codec_ok enc_MasterAcc dec_MasterAcc (fun _ => True) MasterAcc_lim.
+Proof. exact MasterAcc_codec. Qed.
+Print Assumptions C14_MasterAcc.
+
 (* ---- beacon content keys (fastssz generated code, strict as found): all four clauses.
         LightClientFinalityUpdateKey and LightClientOptimisticUpdateKey are the same code (one uint64). *)
 Theorem C14_LcUpdateKey : codec_ok enc_LcUpdateKey dec_LcUpdateKey LcUpdateKey_wf (fun _ => True).
@@ -280,6 +293,9 @@ Theorem C14_BytecodeWithProof :
   codec_ok enc_BytecodeWithProof dec_BytecodeWithProof BytecodeWithProof_wf BytecodeWithProof_lim.
 Proof. exact (proj1 BytecodeWithProof_codec_total). Qed.
 Print Assumptions C14_BytecodeWithProof.
+Theorem C14_CustomPayload : codec_ok enc_CustomPayload dec_CustomPayload (fun _ => True) CustomPayload_lim.
+Proof. exact CustomPayload_codec. Qed.
+Print Assumptions C14_CustomPayload.
 (* no decoder of the second table (Model/WireState.v) ever panics, in either variant *)
 Theorem C14_decoders_total_state : forall fs t b, dec_any2 fs t b <> Panic.
 Proof. exact dec_any2_total. Qed.
